@@ -26,7 +26,7 @@ func protoCheck(r *ev.Run, plan []Plan, mk func() (vnet.Monitor, func() ([]mon.V
 	})
 }
 
-var hostilePlan = []Plan{{"byz", 1200, 50000}, {"async-benign", 900, 40000}, {"missing-tx", 400, 15000}, {"sync-perm", 200, 5000}, {"amnesia-async", 400, 25000}}
+var hostilePlan = []Plan{{"byz", 1200, 25000}, {"async-benign", 900, 20000}, {"missing-tx", 400, 8000}, {"sync-perm", 200, 5000}, {"amnesia-async", 400, 12000}}
 
 func C03(r *ev.Run) {
 	r.SetRule(ruleRuns + "the run contains a commit or pre-commit of an honest node followed by further traffic to it, or a view entry")
@@ -38,7 +38,7 @@ func C03(r *ev.Run) {
 		Account(r, b, m.Cnt)
 		SampleRun(r, b, "directed scenario "+b.Spec.Profile)
 	}
-	protoCheck(r, append(append([]Plan{}, hostilePlan...), Plan{"byz-flips", 300, 12000}), func() (vnet.Monitor, func() ([]mon.V, map[string]int64)) {
+	protoCheck(r, append(append([]Plan{}, hostilePlan...), Plan{"byz-flips", 300, 6000}), func() (vnet.Monitor, func() ([]mon.V, map[string]int64)) {
 		m := &mon.Lock{}
 		return m, func() ([]mon.V, map[string]int64) { return m.Viols, m.Cnt }
 	}, func(b *Built, cnt map[string]int64) bool {
